@@ -321,11 +321,16 @@ func cmdCheck(args []string) int {
 	}
 	var results []*FnResult
 	var all []*VC
+	var gone []string
 	nilDerefOn = cfg.NilDeref
 	for _, name := range cfg.Functions {
 		fn := eng.fnByShort(name)
 		if fn == nil {
-			return undecided("function under contract not found: " + name)
+			// the function the contract was written on is gone (renamed, merged into another, or a function literal
+			// that no longer exists): none of its obligations can be established on this tree — they are reported
+			// as failed by absence against the recorded list of expected obligations
+			gone = append(gone, name)
+			continue
 		}
 		con := eng.contractFor(fn)
 		if con == nil {
@@ -438,7 +443,7 @@ func cmdCheck(args []string) int {
 		}
 		var missing []string
 		for _, n := range strings.Split(strings.TrimSpace(string(eb)), "\n") {
-			if n != "" && !have[n] && !positionalKind(n) {
+			if n != "" && !have[n] && (!positionalKind(n) || goneFn(gone, n)) {
 				missing = append(missing, n)
 			}
 		}
@@ -569,6 +574,16 @@ func oneLine(s string) string {
 func positionalKind(name string) bool {
 	for _, k := range []string{"/bounds", "/div-by-zero", "/nil-map-write", "/nil-deref", "/typeassert", "/unreachable-panic", "/frame", "/lockset", "/lock-released"} {
 		if strings.HasSuffix(name, k) {
+			return true
+		}
+	}
+	return false
+}
+
+// goneFn: obligation name n belongs to a function that no longer exists.
+func goneFn(gone []string, n string) bool {
+	for _, g := range gone {
+		if strings.HasPrefix(n, g+"/") {
 			return true
 		}
 	}
